@@ -109,7 +109,12 @@ def group_complaints(prop, complaints, info):
     ktoks = [k["match"] for k in known if k.get("property") == prop and k.get("match")]
     writers, readers = _writers_readers(info)
     groups = {}
+    cb_sites = set((fn, subj) for fn, kind, subj in complaints if kind in PROTOCOL_CALLBACK)
     for fn, kind, subj in complaints:
+        if kind == "KLockOrder" and (fn, subj) in cb_sites:
+            kind_class = "callback"      # the same call site, seen by the lock-order rule as well
+        else:
+            kind_class = None
         if kind in ACCESS:
             toks = _race_tokens(subj, fn, kind, writers, readers)
             is_known = any(kt in t for kt in ktoks for t in toks)
@@ -117,7 +122,7 @@ def group_complaints(prop, complaints, info):
             g = groups.setdefault(key, {"class": "access", "field": subj, "members": [], "tokens": set(), "is_known": is_known})
             g["members"].append((fn, kind, subj))
             g["tokens"] |= toks
-        elif kind in PROTOCOL_CALLBACK:
+        elif kind in PROTOCOL_CALLBACK or kind_class == "callback":
             g = groups.setdefault(("callback",), {"class": "callback-under-lock", "members": [], "tokens": set()})
             g["members"].append((fn, kind, subj))
         else:
@@ -500,8 +505,8 @@ def check_C12(ctx):
                                                       "repro": "bin/check replay <this file>"})
             ctx.violations.append({"match": sig, "replay": rp, "what": "%s does not return in scenario %s" % (r["failed_op"], _sc_sig(r["scenario"]))})
     ctx.assumptions += ASSUME_COMMON + [
-        "C12 hypothesis: a node's Process / Close and the gated filter's Sender may call Broker.Send (callback kinds Node.Process, Closer.Close, Sender.Send take Broker.lock)",
-        "termination of the sequential code between lock operations and of the dispatch protocol (C03) is not part of these theorems; Reopen re-entry behind a waiting writer is outside C12's statement (observed, not alarmed)",
+        "C12 hypothesis: a node's Process / Close / Reopen and the gated filter's Sender may call Broker.Send (callback kinds Node.Process, Closer.Close, Node.Reopen, Sender.Send take Broker.lock)",
+        "termination of the sequential code between lock operations and of the dispatch protocol (C03) is not part of these theorems; data-dependent re-entry (the gated filter's own mutex) is covered by the watchdog only",
         "a function is charged with the locks of the goroutines it starts (the starter may wait for them)"]
 
 
@@ -805,7 +810,7 @@ _TECH = "Coq soundness proof of a modular lockset checker + obligation re-evalua
 PROPS = {"C04": check_C04, "C12": check_C12, "C19": check_C19}
 MANIFEST = {
     "C12": {"text": "LockSound.v: check_sound (checker sound w.r.t. the big-step trace semantics, for every program/contract/extra caller locks), "
-                    "program_callback_never_under / program_no_self_deadlock / program_call_releases_all for all threads incl. started goroutines; LockDeadlock.v: no_deadlock / "
+                    "program_callback_never_under (callback kinds Node.Process, Closer.Close, Node.Reopen, Sender.Send may take Broker.lock) / program_no_self_deadlock / program_call_releases_all for all threads incl. started goroutines; LockDeadlock.v: no_deadlock / "
                     "program_never_stuck (any number of threads, writer-preferring RW locks, callbacks that may call Send modelled as needing Broker.lock read-acquirable: some thread "
                     "can always step; uses the lock order checked by the same checker); per run Obl_C12.v re-proves no_broker_lock_at_user_callback_obligation, send_lock_scope and "
                     "generated_never_stuck on the regenerated program. Partial: excludes the lock-induced ways of blocking for ever; sequential termination, the dispatch protocol (C03) "
